@@ -245,3 +245,59 @@ Definition gsm_tree_run (parl : list nat) (dnl : list bool) (Tl einl : list nat)
   let MM := lmax 0%nat Ml in
   let c := ctab_fun ctab in
   (tree_sol n par dn T ein eout M MM c, tree_cost n par dn T ein eout M MM c, Ml).
+
+(* ============================================================================================ *)
+(* (d) gsm_tree.is_correctly_labeled / relabel_nodes / _find_larger_adjacent_nodes                  *)
+(*     ids = node indices in tree.nodes order; edges = (predecessor, successor) pairs in the order   *)
+(*     they were added (so that successor / predecessor lists come out in the network's order).      *)
+(* ============================================================================================ *)
+Section Relabel.
+Variables (ids : list nat) (edges : list (nat * nat)).
+
+(* SupplyChainNode.neighbor_indices: successors, then predecessors *)
+Definition nbrs (i : nat) : list nat := succs_of_edges edges i ++ preds_of_edges edges i.
+Definition lminl (l : list nat) : nat := fold_right Nat.min (hd 0%nat l) l.
+Definition lmaxl (l : list nat) : nat := fold_right Nat.max 0%nat l.
+
+Definition is_correctly_labeled : bool :=
+  let mn := lminl ids in let mx := lmaxl ids in let n := length ids in
+  (* set(ind) == set(range(min, min + len)) *)
+  forallb (fun i => Nat.leb mn i && Nat.ltb i (mn + n)) ids && Nat.eqb (length (nodup Nat.eq_dec ids)) n &&
+  (* every node but the largest has exactly one larger-indexed neighbour *)
+  forallb (fun k => if Nat.ltb k mx
+                    then Nat.eqb (length (nodup Nat.eq_dec (filter (fun j => Nat.ltb k j) (nbrs k)))) 1
+                    else true) ids.
+
+(* the labelling loop: in round k the first (in tree.nodes order) unlabelled node with <= 1 unlabelled neighbours gets k *)
+Fixpoint relabel_loop (rounds k : nat) (lab : list (nat * nat)) : list (nat * nat) :=
+  match rounds with
+  | O => lab
+  | S r =>
+    let is_lab := fun i => existsb (fun e => Nat.eqb (fst e) i) lab in
+    match find (fun i => negb (is_lab i) && Nat.leb (length (filter (fun j => negb (is_lab j)) (nbrs i))) 1) ids with
+    | Some i => relabel_loop r (S k) ((i, k) :: lab)
+    | None => relabel_loop r (S k) lab
+    end
+  end.
+
+(* new_labels (old index -> new index), start_index = 0 *)
+Definition new_labels (force : bool) : list (nat * nat) :=
+  if is_correctly_labeled && negb force then map (fun i => (i, i)) ids
+  else relabel_loop (length ids) 0 [].
+
+(* the relabelled tree in the DP's input form: for each new position p (new label - min new label):
+   (original label, position of the larger adjacent node, larger_adjacent_node_is_downstream) *)
+Definition relabel_rooted (force : bool) : list (nat * nat * bool) :=
+  let nl := new_labels force in
+  let lab := fun i => match adj_get nl i with Some x => x | None => 0%nat end in
+  let mn := lminl (map snd nl) in
+  map (fun p =>
+         match find (fun e => Nat.eqb (snd e) (mn + p)) nl with
+         | Some (i, _) =>
+             match find (fun j => Nat.ltb (lab i) (lab j)) (nbrs i) with
+             | Some j => (i, (lab j - mn)%nat, existsb (Nat.eqb j) (succs_of_edges edges i))
+             | None => (i, 0%nat, false)
+             end
+         | None => (0%nat, 0%nat, false)
+         end) (seq 0 (length ids)).
+End Relabel.
